@@ -306,7 +306,7 @@ func c14Text(rng *kit.Rand, cv *c14Cover) string {
 var c14Retexts = []string{
 	"X", "x", "fi", "ffl", "\u00a0", "\u00ad", "\u00e9", "e\u0301", "\u00c5", "A\u030a", "\u01c6",
 	"\U0001D504", "\U0001F600", "\ue000", "\ue001", "\uf8ff", "\u00df", "ss", "1/2", "\u00bd",
-	"\u03a9", "\u2126", "\u044f", "\u2026", "...", "abcdefgh", "\u4e2d", "\u05d0", " ", "A", "B", "\ufb01",
+	"\u03a9", "\u2126", "\u044f", "\u2026", "...", "abcdefgh", "\u4e2d", "\u05d0", " ", "A", "B", "\ufb01", "", "",
 }
 
 // ---------------------------------------------------------------------------
@@ -480,6 +480,11 @@ func (d *c14Doc) retext(rng *kit.Rand, p *c14Pending) {
 			}
 		}
 		g.Text = kit.Pick(rng, c14Retexts)
+		if g.Text == "" && !f.spec.Composite {
+			// "no text" is kept for composite fonts: a simple font without a
+			// ToUnicode entry falls back to the glyph name
+			g.Text = "X"
+		}
 		f.textOf[g.GID] = g.Text
 		if f.spec.OneText {
 			f.forced[g.GID] = g.Text
@@ -1090,6 +1095,12 @@ func (d *c14Doc) checkShow(pageNo int, sh *c14Show, ops []c14Op, fontAt []pdf.Na
 			}
 			if g.shared {
 				continue // reported at Encode; the code can carry one text only
+			}
+			if g.text == "" {
+				// "no text": a file cannot say so, the reader falls back to the
+				// glyph name; the code, the CID and the width are still judged
+				c.R.Count("glyphs_shown_without_text", 1)
+				continue
 			}
 			if rt, ok := rf.raw.toUni[g.code]; ok && rt != "" {
 				c.R.Count("raw_tounicode_comparisons", 1)
